@@ -74,6 +74,7 @@ CLAIMED["C05"] = dict(
          "count/bounds/position contract re-evaluated on the implementation's own transcripts for every writable (major, subtype, endian) incl. all block codecs, "
          "against one sequential reference read, with exact-size ASan-guarded buffers. Partial: opaque codecs are covered by (B) only. The predicate that decides VIOLATION on an implementation transcript is the Lean definition Sf.Abs.holdsOn (lean/SfModel/Abs.lean: L0 abstract handle model of any container, reference stream as a parameter) evaluated by the driver `sfmodel abs`; SfProps/C05Abs.lean proves what an accepted transcript means and that contract-satisfying answers are accepted; the former Python predicate runs beside it as a cross-check (evidence: abs_predicate).",
          "against one sequential reference read, with exact-size ASan-guarded buffers. G.721/G.723 (SfModel/G72x.lean, G72xFile.lean): bit-exact codec model, g72x_read_contract for every request size and position, codec-core memory safety proved (g72x_state_inv, g72x_encode_safe / g72x_decode_safe: every table index and shift count in range for every reachable state), tied by vlib/g72x.py (every cell of every read buffer). Partial: the other opaque codecs (GSM, NMS, ALAC) are covered by (B) only.",
+         "against one sequential reference read, with exact-size ASan-guarded buffers. GSM 06.10 read contract: gsm_read_call_contract / gsm_read_at_end (SfProps/C06Gsm.lean). Partial: the remaining opaque codecs are covered by (B) only.",
     technique="Lean 4 theorems over a hand-written handle model + differential correspondence + contract evaluation on implementation transcripts",
     design_ref="DESIGN.md §7 C05")
 CLAIMED["C06"] = dict(
@@ -82,6 +83,7 @@ CLAIMED["C06"] = dict(
          "seeded seek/read histories must deliver slices of the one-pass reference stream and position probes must agree. Handles reporting SF_INFO.seekable = 0 "
          "are required to refuse every seek. Partial: block-codec seek internals are opaque (checked by B). The predicate that decides VIOLATION on an implementation transcript is the Lean definition Sf.Abs.holdsOn (lean/SfModel/Abs.lean: L0 abstract handle model of any container, reference stream as a parameter) evaluated by the driver `sfmodel abs`; SfProps/C06Abs.lean proves what an accepted transcript means and that contract-satisfying answers are accepted; the former Python predicate runs beside it as a cross-check (evidence: abs_predicate).",
          "are required to refuse every seek. G.721/G.723: g72x_read_partition (any sequence of requests of any types = one slice of the decoded stream, a function of the data bytes), g72x_seek_refused, decoder model bit-exact on adversarial data. Partial: the seek internals of the remaining opaque block codecs are checked by B only.",
+         "are required to refuse every seek. GSM 06.10 is modelled bit-exactly (SfModel/Gsm.lean, GsmFile.lean; SfProps/C06Gsm.lean: decoder memory safety for every frame, reads of any partition / caller type deliver the sequential decode, sf_seek always refused; vlib/gsm.py compares every decoded sample with the model). Partial: the other block-codec seek internals are opaque (checked by B).",
     technique="Lean 4 theorems over a hand-written handle model + differential correspondence + contract evaluation on implementation transcripts",
     design_ref="DESIGN.md §7 C06")
 
@@ -117,6 +119,7 @@ CLAIMED["C07"] = dict(
     text="Proof (Lean 4): kernel_append, write_partition_store (two calls = one call, every field and byte), file_bytes_fn / file_bytes_partition (closed bytes are a function of "
          "open parameters, concatenated samples and PEAK state only; header updates and call variants do not matter) for RAW/AU/WAV, and since the repairs of KF-C18-DOUBLE-NARROW / KF-C18-STAGING-MISALIGN also for "
          "PEAK-carrying WAV float/double with finite samples (file_bytes_partition_finite); " + _WR + "The clock is pinned by the harness. G.721/G.723: g72x_write_partition (the generic block-writer theorem instantiated with the REAL encoder, predictor state carried across blocks; all caller types), data region byte-exact against the model. Partial: the remaining opaque block encoders (GSM, NMS, ALAC, IMA/MS) are covered by (B).",
+         "PEAK-carrying WAV float/double with finite samples (file_bytes_partition_finite); " + _WR + "The clock is pinned by the harness. GSM 06.10: gsm_file_bytes_partition (SfProps/C07Gsm.lean) over the bit-exact encoder model SfModel/GsmEnc.lean, tied byte for byte by vlib/gsm.py. Partial: the other block encoders are covered by (B).",
     technique="Lean 4 theorems over a hand-written handle model + differential correspondence + byte comparison of partitions on the implementation",
     design_ref="DESIGN.md §7 C07")
 CLAIMED["C11"] = dict(
